@@ -2159,7 +2159,14 @@ def c10(ctx):
                 break
             k = rnd.choice([2, 8, 8, 32])
             kind = rnd.choice(['identical', 'different', 'mixed-invalid'])
-            if kind != 'identical' and rnd.random() < 0.6:
+            forced = None
+            if bi < len(gen.METHODS) and not ctx.replay:
+                # always present: every method once with 32 requests of two kinds started together (scratch memory handed from one request
+                # to the next - pools, reused buffers - is reused soonest between requests of the same method)
+                k, kind, forced = 32, 'different', gen.METHODS[bi]
+            if forced:
+                base = [gen.large_request(rnd, forced, lo=4, hi=9), gen.large_request(rnd, forced, lo=3, hi=6)]
+            elif kind != 'identical' and rnd.random() < 0.6:
                 # requests of one method that differ in (optional) parameters: what one request sets must not reach another
                 m = rnd.choice(gen.METHODS)
                 base = [gen.any_request(rnd, m) for _ in range(rnd.randint(2, 4))]
